@@ -1864,12 +1864,11 @@ def note_array_from_part_list(
 
     if is_score:
         # rescale if parts have different divs
-        divs_per_parts = [
-            part_na[0]["divs_pq"] for part_na in note_array if len(part_na)
-        ]
+        nonempty_note_arrays = [part_na for part_na in note_array if len(part_na)]
+        divs_per_parts = [part_na[0]["divs_pq"] for part_na in nonempty_note_arrays]
         lcm = np.lcm.reduce(divs_per_parts)
         time_multiplier_per_part = [int(lcm / d) for d in divs_per_parts]
-        for na, time_mult in zip(note_array, time_multiplier_per_part):
+        for na, time_mult in zip(nonempty_note_arrays, time_multiplier_per_part):
             na["onset_div"] = na["onset_div"] * time_mult
             na["duration_div"] = na["duration_div"] * time_mult
             na["divs_pq"] = na["divs_pq"] * time_mult
